@@ -35,6 +35,8 @@ def _stimuli_of(labels):
             out.append(('tasksgone',))
         elif lab.startswith('FileGone'):
             out.append(('filegone',))
+        elif lab.startswith('FileFail'):
+            out.append(('filefail',))
         elif lab.startswith('ListenerDone'):
             out.append(('lstdone',))
         elif lab.startswith('CancelInListener'):
@@ -44,7 +46,7 @@ def _stimuli_of(labels):
 
 def _suspended_holders(labels):
     """Number of distinct callers that were suspended inside a method body in this behaviour."""
-    return len({m.group(1) for lab in labels for m in [re.match(r'(?:TasksGone|FileGone)\((\d+)\)', lab)] if m})
+    return len({m.group(1) for lab in labels for m in [re.match(r'(?:TasksGone|FileGone|FileFail)\((\d+)\)', lab)] if m})
 
 
 def _init_key(st):
@@ -322,6 +324,13 @@ class Replayer:
                     bg_release.set_result(None)
             elif stim[0] == 'filegone':
                 self._release_files(removed_gate)
+            elif stim[0] == 'filefail':
+                # the removal fails: the held os.remove raises instead of running
+                while removed_gate:
+                    fut, func, a = removed_gate.pop(0)
+                    if not fut.done():
+                        fut.set_exception(OSError(5, 'Input/output error'))
+                        break
             elif stim[0] == 'lstdone':
                 self._release_listener(lst_gates)
             elif stim[0] == 'lstcancel':
@@ -479,7 +488,7 @@ def run(chk: Check, args):
                        'recorded traces; non-trivial = at least one call event')
     # design model
     r = tlc.model_check(SPEC, 'MC_c2.cfg', expect_actions=['Call', 'Acquire', 'Refuse', 'BodyStart', 'TasksGone',
-                                                           'FileGone', 'Transition'], timeout=900)
+                                                           'FileGone', 'FileFail', 'Transition'], timeout=900)
     chk.add_model('TransferState 2 callers (exhaustive)', r)
     # the original design (stale dispatch) must violate LegalEdges: shows the property has teeth
     rs = tlc.run_tlc(SPEC, 'MC_c2_stale.cfg', timeout=900)
